@@ -10,6 +10,8 @@ pub mod p_checkout;
 pub mod p_crash;
 pub mod p_diff;
 pub mod p_files;
+pub mod p_history;
+pub mod p_ignore;
 pub mod p_index;
 pub mod p_matchers;
 pub mod p_merge;
@@ -51,6 +53,8 @@ pub fn dispatch(ctx: &Ctx) -> Option<i32> {
         "C18" => p_index::run_c18(ctx),
         "C19" => p_revset::run_c19(ctx),
         "C20" => p_index::run_c20(ctx),
+        "C37" => p_history::run_c37(ctx),
+        "C38" => p_history::run_c38(ctx),
         "C39" => p_revset::run_c39(ctx),
         "C21" => p_tables::run_c21(ctx),
         "C22" => p_tables::run_c22(ctx),
@@ -59,11 +63,14 @@ pub fn dispatch(ctx: &Ctx) -> Option<i32> {
         "C25" => p_checkout::run_c25(ctx),
         "C26" => p_snapshot::run_c26(ctx),
         "C27" => p_snapshot::run_c27(ctx),
+        "C28" => p_ignore::run_c28(ctx),
         "C29" => p_checkout::run_c29(ctx),
         "C30" => p_matchers::run_c30(ctx),
         "C31" => p_matchers::run_c31(ctx),
         "C32" => p_paths::run_c32(ctx),
         "C33" => p_paths::run_c33(ctx),
+        "C43" => p_ignore::run_c43(ctx),
+        "C46" => p_history::run_c46(ctx),
         _ => return None,
     })
 }
